@@ -8,23 +8,31 @@ from .core import (eng, SymInt, SymBool, mk_int, mk_bool, zi, to_z3bool, Unsuppo
 def norm_item(x):
     """byte item: python int 0..255 or z3 Int term"""
     if isinstance(x, SymInt):
-        t = z3.simplify(x.t)
+        t = x.t
         return t.as_long() if z3.is_int_value(t) else t
     if isinstance(x, SymBool):
         return z3.If(x.t, 1, 0)
     if isinstance(x, int):
         return x
     if z3.is_expr(x):
-        t = z3.simplify(x)
-        return t.as_long() if z3.is_int_value(t) else t
+        return x.as_long() if z3.is_int_value(x) else x
     raise TypeError(f'byte item {type(x)}')
 
 
 def mk_bytes(items):
-    items = [norm_item(x) for x in items]
-    if all(isinstance(x, int) for x in items):
-        return bytes(items)
-    return SymBytes(items)
+    items = [x if type(x) is int else norm_item(x) for x in items]
+    for x in items:
+        if type(x) is not int:
+            return SymBytes(items)
+    return bytes(items)
+
+
+def _mk_norm(items):
+    """items already normalised (ints or non-numeral terms)"""
+    for x in items:
+        if type(x) is not int:
+            return SymBytes(items)
+    return bytes(items)
 
 
 def items_of(v):
@@ -50,6 +58,8 @@ def bytes_eq(a, b):
         return False
     ts = []
     for x, y in zip(ia, ib):
+        if x is y:
+            continue
         if isinstance(x, int) and isinstance(y, int):
             if x != y:
                 return False
@@ -85,19 +95,19 @@ class SymBytes:
             k = slice(_conc(k.start) if k.start is not None else None,
                       _conc(k.stop) if k.stop is not None else None,
                       _conc(k.step) if k.step is not None else None)
-            return mk_bytes(self.b[k])
+            return _mk_norm(self.b[k])
         k = _conc(k)
         return item_val(self.b[k])
 
     def __add__(self, o):
         if not isinstance(o, (bytes, bytearray, SymBytes, SymByteArray)):
             return NotImplemented
-        return mk_bytes(list(self.b) + items_of(o))
+        return _mk_norm(list(self.b) + items_of(o))
 
     def __radd__(self, o):
         if not isinstance(o, (bytes, bytearray, SymBytes, SymByteArray)):
             return NotImplemented
-        return mk_bytes(items_of(o) + list(self.b))
+        return _mk_norm(items_of(o) + list(self.b))
 
     def __mul__(self, n):
         n = _conc(n)
@@ -232,12 +242,15 @@ def bytes_join(sep, seq):
 def fresh_bytes(name, n):
     """n fresh symbolic bytes registered as a harness input"""
     e = eng()
-    items = []
-    for i in range(n):
-        v = z3.Int(f'{name}[{i}]')
-        e.add(z3.And(v >= 0, v <= 255))
-        items.append(v)
-    val = mk_bytes(items)
+    hit = e.persist.get(('bytes', name, n))
+    if hit is None:
+        items = [z3.Int(f'{name}[{i}]') for i in range(n)]
+        rng = z3.And(*[z3.And(v >= 0, v <= 255) for v in items]) if n else None
+        hit = e.persist[('bytes', name, n)] = (items, rng)
+    items, rng = hit
+    if rng is not None:
+        e.add(rng, simplified=True)
+    val = SymBytes(items) if n else b''
     e.inputs[name] = val
     return val
 
@@ -253,6 +266,21 @@ def fresh_int(name, lo=None, hi=None):
     if lo is not None and lo >= 0 and hi is not None:
         width = max(int(hi).bit_length(), 1)
     val = SymInt(v, width)
+    e.inputs[name] = val
+    return val
+
+
+def fresh_byte(name):
+    """symbolic byte built from 8 Bool inputs (bit operations on it need no extra variables)"""
+    from .core import register_bits
+    e = eng()
+    hit = e.persist.get(('byte', name))
+    if hit is None:
+        bs = [z3.Bool(f'{name}.bit{i}') for i in range(8)]
+        hit = e.persist[('byte', name)] = (bs, z3.Sum([z3.If(b, 1 << i, 0) for i, b in enumerate(bs)]))
+    bs = hit[0]
+    val = SymInt(hit[1], 8)
+    register_bits(val, bs)
     e.inputs[name] = val
     return val
 
@@ -274,6 +302,20 @@ def from_bytes_model(b, byteorder='big', *, signed=False):
     n = len(items)
     if all(isinstance(x, int) for x in items):
         return int.from_bytes(bytes(items), 'big', signed=signed)
+    e = eng()
+    ck = (signed, tuple(x if type(x) is int else -1 - x.get_id() for x in items))
+    cache = e.persist.setdefault('from_bytes', {})
+    hit = cache.get(ck)
+    if hit is not None:
+        return SymInt(hit[0], hit[1])
+    res = _from_bytes_build(items, n, signed)
+    if len(cache) > 20000:
+        cache.clear()
+    cache[ck] = (res.t, res.width, items)      # items kept alive so that ids stay valid
+    return res
+
+
+def _from_bytes_build(items, n, signed):
     terms = []
     for i, x in enumerate(items):
         w = 256 ** (n - 1 - i)
@@ -285,8 +327,8 @@ def from_bytes_model(b, byteorder='big', *, signed=False):
     t = z3.Sum(terms) if len(terms) > 1 else terms[0]
     if signed:
         t = z3.If(zi(items[0]) >= 128, t - 256 ** n, t)
-        return mk_int(t)
-    return mk_int(t, 8 * n)
+        return SymInt(t)
+    return SymInt(t, 8 * n)
 
 
 def int_to_bytes_model(v, length=1, byteorder='big', signed=False):
@@ -310,6 +352,8 @@ def int_to_bytes_model(v, length=1, byteorder='big', signed=False):
             raise OverflowError("can't convert negative int to unsigned")
         if not mk_bool(v.t < 256 ** length):
             raise OverflowError('int too big to convert')
+    if length == 1 and v.width is not None and v.width <= 8:
+        return SymBytes([v.t])                 # already a byte: no fresh digit needed
     # fresh digits + one linear equation (div/mod terms make large widths intractable)
     key = ('digits', v.t.get_id(), length)
     hit = e.run_cache.get(key)
